@@ -4,6 +4,8 @@ from __future__ import annotations
 import numpy as np
 from hypothesis import strategies as st
 
+from vp.gen.morph import fl
+
 from vp import core
 from vp.gen import morph as gm
 from vp.gen import net as gn
@@ -49,7 +51,7 @@ def _spec(draw, tier):
     kind = draw(st.sampled_from(["cell", "network", "network"]))
     morph = draw(gm.morphology(tier, kinds=(kind,), max_branches=3, max_ncomp=3, max_cells=3, ranges=gm.RANGES_DYN))
     N = gm.n_compartments(morph["cells"])
-    morph["v"] = [draw(st.floats(-80.0, -40.0)) for _ in range(N)]
+    morph["v"] = [draw(fl(-80.0, -40.0)) for _ in range(N)]
     for key in ("radius", "length"):
         morph[key] = draw(gm.comp_values(morph["cells"], key, mode="comp", ranges=gm.RANGES_DYN))
     chans = draw(gn.channel_placement(N, mechs=("HH", "HH", "Leak", "Na", "K"), max_ch=2, allow_rename=False))
@@ -80,14 +82,14 @@ def _spec(draw, tier):
         elif k == "stimulate":
             rows = sorted(draw(st.sets(st.integers(0, N - 1), min_size=1, max_size=2)))
             per_row = draw(st.booleans())
-            samples = [[draw(st.floats(-0.5, 1.5, allow_subnormal=False)) for _ in range(L)] for _ in range(len(rows) if per_row else 1)]
+            samples = [[draw(fl(-0.5, 1.5)) for _ in range(L)] for _ in range(len(rows) if per_row else 1)]
             ops.append({"op": "stimulate", "targets": rows, "samples": samples})
         else:
             pool = [("v", list(range(N)))] + [s for s in comp_states if s != "v" and not s[0].startswith("i_")] + [s for s in edge_states if not s[0].startswith("i_")]
             state, owners = draw(st.sampled_from(pool))
             tg = sorted(draw(st.sets(st.sampled_from(owners), min_size=1, max_size=2)))
             lo, hi = (-80.0, -20.0) if state == "v" else (0.0, 1.0)
-            samples = [[draw(st.floats(lo, hi)) for _ in range(L)] for _ in tg]
+            samples = [[draw(fl(lo, hi)) for _ in range(L)] for _ in tg]
             ops.append({"op": "clamp", "state": state, "targets": tg, "samples": samples,
                         "on": "edges" if any(state == s[0] for s in edge_states) else "nodes"})
     if not any(o["op"] == "record" for o in ops):
